@@ -41,12 +41,25 @@ def check(scn, H, view=None):
                     rec['n_before'] > 0 and prev_dump['n'] == rec['n_before']:
                 st['prefix_checks'] += 1
                 m = prev_dump['n']
-                if d['time'][:m] != prev_dump['time'][:m]:
+                def same(xs, ys):
+                    # (the recorded sample objects are the live attribute
+                    # objects; a user's in-place unit conversion changes
+                    # their last bits, not their magnitude)
+                    if len(ys) < len(xs):
+                        return False
+                    for x, y in zip(xs, ys):
+                        if x is None or y is None:
+                            if x is not y:
+                                return False
+                        elif x != y and not (x != x and y != y) and \
+                                abs(x - y) > 1e-12 * max(abs(x), abs(y)):
+                            return False
+                    return True
+                if not same(prev_dump['time'][:m], d['time']):
                     viol('history-rewritten/time', op_index=rec['i'])
                 for p, (e0, e1) in enumerate(zip(prev_dump['elems'], d['elems'])):
                     for var, xs in e0['tv'].items():
-                        if e1['tv'].get(var, [])[:len(xs)] != xs and \
-                                all(x == x for x in xs if x is not None):
+                        if not same(xs, e1['tv'].get(var, [])):
                             viol(f'history-rewritten/{kinds[p]}/{var}',
                                  element=p, op_index=rec['i'])
             prev_dump = d
